@@ -334,4 +334,12 @@ def R7_cursor(run):
     C10.R6_array_grid(RuleProxy(run, "R7"))
 
 
-RULES = [R1_writers, R2_one_delta, R3_tick_polarity, R4_in_range, R5_crossing, R6_sync, R7_cursor]
+def R8_cross_checks(run):
+    run.title("R8", 'what a swap traverses and what a position books agree: array hand-over and sentinels of the sequence search (C10.R4 instances) and the range validator of both packagings (C18.R7 instances: lower < upper, usable ticks, full-range-only pools)')
+    from rules.common import RuleProxy
+    from rules import C10, C18
+    C10.R4_sequence(RuleProxy(run, 'R8'))
+    C18.R7_range_validator(RuleProxy(run, 'R8'))
+
+
+RULES = [R1_writers, R2_one_delta, R3_tick_polarity, R4_in_range, R5_crossing, R6_sync, R7_cursor, R8_cross_checks]
